@@ -4,8 +4,8 @@ patch applies, baseline suite still passes with it, demo fails with it and passe
 Usage: seedcheck.py <Cxx> <mN> -> writes /tmp/seed/<Cxx>/<mN>/validation.json"""
 import json, os, subprocess, sys, re
 pid, m = sys.argv[1], sys.argv[2]
-wt = '/tmp/wt/%s' % pid
-sd = '/tmp/seed/%s/%s' % (pid, m)
+wt = '%s/%s' % (os.environ.get('WT_ROOT', '/tmp/wt'), pid)
+sd = '%s/%s/%s' % (os.environ.get('SEED_ROOT', '/tmp/seed'), pid, m)
 def sh(cmd, **kw):
     return subprocess.run(cmd, shell=True, text=True, stdout=subprocess.PIPE, stderr=subprocess.STDOUT, **kw)
 res = {'property': pid, 'mutant': m}
